@@ -184,11 +184,11 @@ type shFrame struct {
 
 type shInterp struct {
 	inModule func(*ssa.Function) bool
-	fn      *ssa.Function
-	root    shSym
-	und     string
-	results []shResult
-	steps   int
+	fn       *ssa.Function
+	root     shSym
+	und      string
+	results  []shResult
+	steps    int
 }
 
 func (it *shInterp) run(h *shHeap, b *ssa.BasicBlock, idx int, env map[ssa.Value]shVal, prev *ssa.BasicBlock, fr *shFrame) {
